@@ -18,7 +18,7 @@ ASSUMPTIONS = [
 RULE = {
     "quick": "class representatives n<=3 over 4 node labels x 2 bond orders and n=4 over 2 node labels x 2 bond orders; each under all n! node permutations x 4 insertion orders "
     "(identity, reversed, two rotations) x 2 edge orientations; back-ends generic/wl/morgan/nauty; symmetric families (C3..C6, K22, K23, star, 2xC3) under all permutations (n<=5) or "
-    "rotations/reflections; non-trivial = graph has a non-trivial automorphism or tied node keys",
+    "rotations/reflections; every digraph on 2-3 nodes (see the digraphs sub-check); non-trivial = graph has a non-trivial automorphism or tied node keys",
     "thorough": "all n! x n! presentations for n<=4 over 4 node labels (<=4 bonds), n=5 representatives over 2 labels x single bonds, symmetric families up to the cube Q3 and K33",
 }
 
